@@ -131,7 +131,7 @@ class _ReplaceOps(_GuardOps):
 
 
 def r02_1(ctx) -> None:
-    u = ctx.unit("builtins._min_max")
+    u = ctx.inlined(ctx.unit("builtins._min_max"))  # the selection may be split into private steps
     cfg = cfg_of(u)
     rets = [n for n in cfg.nodes if n.kind == "return" and not n.tag and isinstance(n.info.get("value"), ast.Name)]
     names = {n.info["value"].id for n in rets}
@@ -569,7 +569,7 @@ def r02_6(ctx) -> None:
         names = [raised_class(ctx, u, r) for r in raises]
         ctx.check(names == [cls], "R02.6", u, raises[0] if raises else short,
                   f"empty input without default/initial raises {cls} like the builtin", witness=str(names))
-    u = ctx.unit("functools.reduce")
+    u = ctx.inlined(ctx.unit("functools.reduce"))  # the seed may be chosen by a private helper
     cfg = cfg_of(u)
     loops = [n for n in cfg.nodes if n.kind == "pull" and not n.tag]
     ok = False
@@ -591,18 +591,31 @@ def r02_6(ctx) -> None:
                 acc = s_.info["targets"][0].id
     seeds = set()
     initial = [p for p in u.param_names() if p == "initial"]
+    from asl.flow import reaching
+    from asl.loader import local_names
+    locals_ = set(local_names(u)) - set(u.param_names())
+
+    def parts_of(s_, depth=0):
+        v = s_.info.get("value")
+        for part in ([v.body, v.orelse] if isinstance(v, ast.IfExp) else [v]):
+            if isinstance(part, ast.Name) and part.id in initial:
+                seeds.add("initial")
+            elif isinstance(part, ast.Await) and "anext" in norm(part):
+                seeds.add("first item")
+            elif isinstance(part, ast.Name) and part.id in locals_ and depth < 4:
+                for d in reaching(cfg).defs_at(s_, part.id):  # a copy of another local: what that one holds
+                    if d.kind == "store" and d.info.get("value") is not None:
+                        parts_of(d, depth + 1)
+                    else:
+                        seeds.add(norm(part))
+            else:
+                seeds.add(norm(part))
+
     if acc is not None:
         for s_ in cfg.nodes:
             if s_.kind == "store" and not s_.tag and not s_.in_loop() \
                     and any(isinstance(t, ast.Name) and t.id == acc for t in s_.info.get("targets", [])):
-                v = s_.info.get("value")
-                for part in ([v.body, v.orelse] if isinstance(v, ast.IfExp) else [v]):
-                    if isinstance(part, ast.Name) and part.id in initial:
-                        seeds.add("initial")
-                    elif isinstance(part, ast.Await) and "anext" in norm(part):
-                        seeds.add("first item")
-                    else:
-                        seeds.add(norm(part))
+                parts_of(s_)
     tests = [n for n in cfg.nodes if n.kind == "branch" and isinstance(n.ast, ast.Compare) and "initial" in norm(n.ast)
              and isinstance(n.ast.ops[0], (ast.Is, ast.IsNot))]
     ctx.check(seeds == {"initial", "first item"} and bool(tests), "R02.6", u, "reduce",
